@@ -185,7 +185,10 @@ def _reader_world(model, ch, entry, checks_end=(CHECK_OK,), n_rows_options=(0, 1
 def reader_rows_run(model, ch, entry="Reader.rows", max_rows=3, numeric="order"):
     """entry: "Reader.rows" (generator of a Reader), "rows()" (validio.rows), "validate()" (validio.validate),
     "validate_rows" (Reader.validate_rows inside with, as the command line does)."""
-    run = _reader_world(model, ch, entry, n_rows_options=tuple(range(0, max_rows + 1)), numeric=numeric)
+    # the wrappers close the run themselves: their end checks may fail, also after the run was stopped by an error - which
+    # must then stay the error the caller sees
+    checks_end = (CHECK_OK, CHECK_BAD) if entry in ("rows()", "validate()") else (CHECK_OK,)
+    run = _reader_world(model, ch, entry, checks_end=checks_end, n_rows_options=tuple(range(0, max_rows + 1)), numeric=numeric)
     interp, cid = run["interp"], run["cid"]
     stream = run["world"].stream()
     items = []
@@ -247,8 +250,10 @@ def reader_rows_oracle(run, aspects):
             # (a reset before the end verdict is permitted: the verdict must be the one of a fresh CID - C08)
             while cursor.peek_is("reset"):
                 cursor.position += 1
-            _expect_close(cursor, entry, aspects)
+            end_failed = _expect_close(cursor, entry, aspects)
             cursor.done()
+            if end_failed != (outcome[0] == "raise" and exc_name(outcome[1]) == "CheckError"):
+                raise Mismatch("end verdict %s but the run %s" % ("failed" if end_failed else "passed", "returned" if outcome[0] == "return" else "raised " + exc_name(outcome[1])))
             return "conforms"
         # every check is reset exactly once before anything else happens
         seen = set()
@@ -298,7 +303,8 @@ def reader_rows_oracle(run, aspects):
                     if mode == "raise":
                         stopped = "raised"
                         if outcome[0] != "raise" or outcome[1] is not error:
-                            raise Mismatch("mode raise: the row error of raw row %d was not raised" % k)
+                            raise Mismatch("mode raise: the row error of raw row %d was not raised%s" % (
+                                k, " (%s was raised instead)" % exc_name(outcome[1]) if outcome[0] == "raise" else ""))
                         break
                     rejected += 1
                     if mode == "yield":
@@ -317,7 +323,8 @@ def reader_rows_oracle(run, aspects):
         if stopped == "fault":
             if "faults" in aspects:
                 if outcome[0] != "raise" or exc_name(outcome[1]) != "DataFormatError":
-                    raise Mismatch("container fault at raw row %d did not stop reading with DataFormatError in mode %s" % (k, mode))
+                    raise Mismatch("container fault at raw row %d did not stop reading with DataFormatError in mode %s%s" % (
+                        k, mode, " (it was replaced by %s)" % exc_name(outcome[1]) if outcome[0] == "raise" else ""))
             if entry not in ("Reader.rows", "validate_rows"):
                 _expect_close(cursor, entry, aspects)
             cursor.done()
@@ -327,9 +334,15 @@ def reader_rows_oracle(run, aspects):
                 _expect_close(cursor, entry, aspects)
             cursor.done()
             return "conforms"
+        end_failed = False
         if entry not in ("Reader.rows", "validate_rows"):
-            _expect_close(cursor, entry, aspects)
+            end_failed = _expect_close(cursor, entry, aspects)
         cursor.done()
+        if end_failed:
+            if outcome[0] != "raise" or exc_name(outcome[1]) != "CheckError":
+                raise Mismatch("an end check failed after a complete pass but the run ended with %s" % (
+                    "a normal return" if outcome[0] == "return" else exc_name(outcome[1])))
+            return "conforms"
         if outcome[0] != "return":
             raise Mismatch("raised %s after a complete pass" % exc_name(outcome[1]))
         if "modes" in aspects and run["reader"] is not None:
@@ -347,13 +360,14 @@ def _expect_close(cursor, entry, aspects=("reset",)):
         cursor.position += 1  # resets are the business of the tables that compare the reset protocol (C08, C20)
     result = cursor.expect("check_at_end", "c0")
     if result == CHECK_OK:
-        cursor.expect("check_at_end", "c1")
+        result = cursor.expect("check_at_end", "c1")
     seen = set()
     while cursor.peek_is("cleanup"):
         seen.add(cursor.events[cursor.position][1])
         cursor.position += 1
     if seen != {"c0", "c1"}:
         raise Mismatch("cleanup ran for %s, expected c0 and c1" % sorted(seen))
+    return result != CHECK_OK
 
 
 def _rows_key(run):
@@ -430,9 +444,11 @@ def close_table(ctx, rule, class_qualname=VALIDATOR):
                     raise Mismatch("second close() gave %s" % outcomes[1])
                 cursor.done()  # second call: no events at all
             elif calls == 2:
-                # after a failed end check the property only promises cleanup happened once the run was closed;
-                # a second close may repeat the end checks (not stated) - not compared
-                pass
+                # every check is asked for its end verdict ONCE and cleaned up ONCE per run - also when the verdict was a
+                # failure: a second close() (leaving a with block after an explicit close(), a finally clause) does nothing
+                if outcomes[1] != "return":
+                    raise Mismatch("second close() after a failed end check gave %s (the checks were asked again)" % outcomes[1])
+                cursor.done()
             else:
                 cursor.done()
             verdict = "conforms"
